@@ -243,6 +243,47 @@ func c11R4(c *Ctx) {
 				good = true
 			}
 		}
+		// universal form: from every work call whose error can reach the reporter, the handler does not end without the
+		// reporter — except over an edge on which that error was found nil
+		for _, ci := range calls {
+			if _, isDefer := ci.(*ssa.Defer); isDefer {
+				continue
+			}
+			for _, l := range origins(ci.Common().Args[1], originOpts{}) {
+				w, _ := callOf(l.V)
+				if w == nil || !c.inPkg(w.Call.StaticCallee()) || w.Parent() != f {
+					continue
+				}
+				ev := l.V
+				fromW := func(v ssa.Value) bool {
+					if !isErrorType(v.Type()) {
+						return false
+					}
+					for _, o := range origins(v, originOpts{}) {
+						if o.V == ev {
+							return true
+						}
+					}
+					return false
+				}
+				hitU, pathU := reachFromE(w.Block(), instrIndex(w)+1, isReturn, func(in ssa.Instruction) bool {
+					c2, ok := in.(ssa.CallInstruction)
+					if _, isD := in.(*ssa.Defer); isD || !ok {
+						return false
+					}
+					return calleeID(c2.Common()) == x.reporter
+				}, func(from, to *ssa.BasicBlock) bool {
+					for _, fc := range edgeFactsTo(from, to) {
+						op, a, b, ok := cmpFact(fc)
+						if ok && op == token.EQL && isNilConst(b) && fromW(a) {
+							return true
+						}
+					}
+					return false
+				})
+				c.check(hitU == nil, x.fn+"/error=>reporter."+calleeID(&w.Call)[strings.LastIndex(calleeID(&w.Call), ".")+1:], c.ipos(w), "whenever this call fails the failure is handed to the error reporter", "a failure of this call can end the handler without the error reporter: the peer is not told and waits out its timeout", c.pathStr(pathU)...)
+			}
+		}
 		c.check(good, x.fn+"/error=>reporter", c.pos(f.Pos()), "a non-nil error of the transfer is handed to the error reporter", "the handler does not report the transfer's error to the peer")
 		// no path from the work call returning non-nil error to the end without the reporter: the If on err != nil leads to the reporter
 	}
